@@ -781,6 +781,10 @@ def cli_jobs(tier, seed):
         J('SWS', M3 + ['-go', 'CONTACTS', '-name', 'foo', '-resid', 'input'], per={0: {'start': 5}, 2: {'start': 70}},
           tags=['go-file', 'resid-input']),
         J('SWS', M3 + ['-water-bias', '-ss', 'C', '-water-bias-eps', 'C:2.1'], tags=['vs-without-go']),
+        # two DIFFERENT chains of nearly the same size: the virtual sites of both molecules have overlapping node keys
+        J('WW', M3 + ['-water-bias', '-ss', 'C', '-water-bias-eps', 'C:2.1', '-mutate', 'B-SER14:GLY', '-maxwarn', '100'], tags=['vs-without-go']),
+        # two copies of a disulfide-linked pair of chains (one molecule each, no -merge), the first labelled against the alphabet
+        dict(J('PP', M3 + ['-maxwarn', '100'], tags=['chains-joined-by-bonds']), raw='BACD'),
         J('WwW', M3 + ['-elastic', '-noscfix'], tags=['conformations']),
         J('SPS', M3 + ['-elastic', '-eunit', 'all', '-name', 'net'], tags=['eunit-all']),
         J('SPSP/ADCB', M3 + ['-noscfix', '-merge', 'A,D', '-merge', 'C,B'], tags=['merge-two-sets']),
@@ -874,6 +878,8 @@ def _selected_model(job):
 def opt_of(job):
     """What the command line was asked for, in the vocabulary of Trace_Output!Option (no expectation is computed here)."""
     opts = job['options']
+    if job.get('raw'):          # molecules made of several chains without -merge: the option clauses do not apply
+        return dict(NO_OPT)
     merge = [opts[i + 1] for i, o in enumerate(opts) if o == '-merge']
     go = '-go' in opts
     everything = go or 'all' in merge or ('-eunit' in opts and opts[opts.index('-eunit') + 1] == 'all')
@@ -908,7 +914,7 @@ def run_cli_job(job):
     if 'CONTACTS' in options:
         extra_files['contacts.out'] = contacts_text(_selected_model(job))
         options[options.index('CONTACTS')] = 'contacts.out'
-    text = cli_c03.build_input(job)
+    text = cli_c03.insulin_pairs(job['raw']) if job.get('raw') else cli_c03.build_input(job)
     in_name = 'in.' + job['fmt']
     def on_system(system):
         names = [m.meta.get('moltype', '') for m in system.molecules]
